@@ -66,6 +66,8 @@ def parseRes (s : String) : Option (Option Res) :=
   else if s = "x?" then some (some (.exc (.tmo 0)))
   else if s.startsWith "xj" then (s.drop 2).toString.toNat?.map fun k => some (.exc (.byJob k))
   else if s.startsWith "xt" then (s.drop 2).toString.toNat?.map fun k => some (.exc (.tmo k))
+  -- the exception raised by the orchestration code of scheduler `k` itself
+  else if s.startsWith "xo" then (s.drop 2).toString.toNat?.map fun k => some (.exc (.orch k))
   else none
 
 def showNats (l : List Nat) : String := ",".intercalate ((l.toArray.qsort (· < ·)).toList.map toString)
@@ -177,7 +179,8 @@ open AJ.Full
 /-- a translated event of layer B with the reactions observed on the implementation -/
 structure ObsB where
   ev  : EvB
-  /-- observed fields: D (done set), S (started), K (cancel() calls), H (handler tasks created),
+  /-- observed fields: D (done set), S (started), K (cancel() calls — on `R_…`, `OF_…`, `CA_…`, `TF_…`: every event
+      by which a run may leave its main loop), H (handler tasks created),
       HC (handler tasks cancelled), R (result of a run that ends: job id + token), V (value of co_shutdown) -/
   obs : List (String × String)
 
@@ -193,6 +196,7 @@ def parseEvB (s : String) : Option ObsB := do
     | ["CA", s] => do pure (.cancelArrive (← s.toNat?))
     | ["W", s] => do pure (.waitReturn (← s.toNat?))
     | ["R", s] => do pure (.react (← s.toNat?))
+    | ["OF", s] => do pure (.orchFail (← s.toNat?))
     | ["TF", s] => do pure (.timeoutFire (← s.toNat?))
     | ["TR", s, p] => do pure (.tidyReturn (← s.toNat?) (← p.toNat?))
     | ["HS", j] => do pure (.hStep (← j.toNat?))
@@ -207,7 +211,7 @@ def parseEvB (s : String) : Option ObsB := do
   pure ⟨ev, obs⟩
 
 def evSched : EvB → Nat
-  | .cancelArrive s | .waitReturn s | .react s | .timeoutFire s | .tidyReturn s _ | .hStep s
+  | .cancelArrive s | .waitReturn s | .react s | .orchFail s | .timeoutFire s | .tidyReturn s _ | .hStep s
   | .hCancelArrive s | .sdWaitReturn s _ | .sdTimeoutFire s | .sdTidyReturn s _ => s
   | _ => 0
 
@@ -218,6 +222,7 @@ def resToken : Ph → String
   | .done (.retBool false) => "f"
   | .done (.exc (.byJob k)) => s!"xj{k}"
   | .done (.exc (.tmo k)) => s!"xt{k}"
+  | .done (.exc (.orch k)) => s!"xo{k}"
   | _ => "?"
 
 def whyRejectB (c : Cfg) (st : StB) (e : EvB) : String :=
@@ -235,12 +240,12 @@ def tickWhyB (c : Cfg) (st : StB) : String :=
   if !g.isEmpty then "eager" else "urgent"
 
 def evTag : EvB → String
-  | .cancelArrive _ => "CA" | .react _ => "R" | .timeoutFire _ => "TF" | .tidyReturn _ _ => "TR" | .hStep _ => "HS"
+  | .cancelArrive _ => "CA" | .react _ => "R" | .orchFail _ => "OF" | .timeoutFire _ => "TF" | .tidyReturn _ _ => "TR" | .hStep _ => "HS"
   | .hCancelArrive _ => "HX" | .sdWaitReturn _ _ => "SW" | .sdTimeoutFire _ => "ST" | .sdTidyReturn _ _ => "SY"
   | _ => "-"
 
 def exTag : Exit → String
-  | .success => "S" | .critical => "C" | .timeout => "T" | .cancelled => "X"
+  | .success => "S" | .critical => "C" | .timeout => "T" | .cancelled => "X" | .crashed => "O"
 
 def whoTag : Who → String
   | .inline => "i" | .relay => "r"
@@ -362,7 +367,7 @@ def replayB (c : Cfg) (evs : List ObsB) (diag : List (Nat × Bool × Bool)) : St
       if st'.a.dbl then diffs := diffs.push s!"{i} start a task was created twice"
       -- which branch of the model the event took: phase of the scheduler concerned before > after
       match o.ev with
-      | .cancelArrive s | .react s | .timeoutFire s | .tidyReturn s _ | .hStep s | .hCancelArrive s
+      | .cancelArrive s | .react s | .orchFail s | .timeoutFire s | .tidyReturn s _ | .hStep s | .hCancelArrive s
       | .sdWaitReturn s _ | .sdTimeoutFire s | .sdTidyReturn s _ =>
         if st.pcB s != st'.pcB s || st.bc s != st'.bc s then
           cov := cov.push s!"{evTag o.ev}:{pcTag (st.pcB s)}{bcTag (st.bc s)}>{pcTag (st'.pcB s)}{bcTag (st'.bc s)}"
